@@ -31,7 +31,9 @@ RULE = ("(a) seeded nestings (depth <= 6, <= 40 nodes) of the three context mana
         "programs, programs with 1-3 planted faults (parse/compile/evaluation time), programs that crash the assembler (RecursionError while parsing "
         "and while evaluating, TypeError in the string-escape parser), assemblies interrupted by an exception injected at a random function call, "
         "assemblies cut by the real watchdog, and product chains ('x1 = x0*x0 / x2 = x1*x1 / ... / x0 = 1' valid, undefined, ring, overflow; plain or interrupted) that "
-        "leave many entries in try_compute.not_ready_yet, rings through such a chain (which fill and must empty the cycle memo of class Awaiting), also cut short and repeated, followed by a probe (valid, faulty, multi-file, product chain over the same names) compared with a fresh process; "
+        "leave many entries in try_compute.not_ready_yet, rings through such a chain (which fill and must empty the cycle memo of class Awaiting), also cut short and repeated, followed by a probe (valid, faulty, multi-file, product chain over the same names, programs whose diagnostics must print integers of "
+        "thousands of digits) compared with a fresh process; around every history item a snapshot of interpreter / process level state (int/str digit limit, recursion "
+        "limit, warnings filters, locale, cwd, environ, streams, hooks, signal handlers ...) is compared with the one taken before the history; "
         "(c) every probe (incl. programs with groups of 2-5 equal-valued labels / constants under random names) under PYTHONHASHSEED 0..15 and a random seed, "
         "comparing outcome, base, bytes, diagnostics and the listing text; and the command line with --lst -o under the same seeds (also programs with 2-4 make_* "
         "directives of different formats on ONE file, spelt in ways that normalise to the same path: the last in source order must win), comparing every file written. non-trivial = distinct (history kinds, probe) with >= 1 non-valid item, "
@@ -387,6 +389,38 @@ def fingerprint():
     return out
 
 
+def proc_state():
+    """Interpreter / process level state that an assembly could leave changed (it is not a module-level object of the package,
+    so neither the usage scan nor the fingerprint sees it)."""
+    import builtins, decimal, gc, hashlib, locale, signal, threading, warnings
+    st = {}
+    st["int_max_str_digits"] = sys.get_int_max_str_digits() if hasattr(sys, "get_int_max_str_digits") else None
+    st["recursionlimit"] = sys.getrecursionlimit()
+    st["switchinterval"] = sys.getswitchinterval()
+    st["warnings.filters"] = hashlib.sha1(repr(warnings.filters).encode()).hexdigest()
+    try:
+        st["locale"] = locale.setlocale(locale.LC_ALL)
+    except Exception as ex:
+        st["locale"] = "?" + type(ex).__name__
+    st["cwd"] = os.getcwd()
+    st["environ"] = hashlib.sha1(repr(sorted(os.environ.items())).encode("utf-8", "surrogateescape")).hexdigest()
+    st["sys.path"] = hashlib.sha1(repr(sys.path).encode()).hexdigest()
+    st["trace/profile"] = [sys.gettrace() is None, sys.getprofile() is None]
+    st["streams"] = [id(sys.stdout), id(sys.stderr), id(sys.stdin), getattr(sys.stdout, "errors", None), getattr(sys.stderr, "errors", None),
+                     getattr(sys.stdout, "encoding", None), getattr(sys.stderr, "encoding", None)]
+    st["hooks"] = [id(sys.excepthook), id(sys.displayhook), id(getattr(sys, "unraisablehook", None)), id(sys.breakpointhook)]
+    st["builtins"] = [len(vars(builtins)), id(builtins.open), id(builtins.print)]
+    st["gc"] = [gc.isenabled(), gc.get_threshold()]
+    st["threads"] = threading.active_count()
+    st["decimal"] = repr(decimal.getcontext())
+    st["defaultencoding"] = [sys.getdefaultencoding(), sys.getfilesystemencoding(), sys.dont_write_bytecode]
+    st["signals"] = [repr(signal.getsignal(sg)) for sg in (signal.SIGALRM, signal.SIGINT, signal.SIGTERM)]
+    st["itimer"] = signal.getitimer(signal.ITIMER_REAL)[0] == 0
+    st["umask-free"] = True
+    st["codecs:bk"] = True
+    return st
+
+
 def assemble_item(item):
     """One history item, never resetting the module state."""
     files = [tuple(f) for f in item["files"]]
@@ -419,6 +453,8 @@ def run_history(job):
     impl.load()
     impl.assemble([("w.mac", "x: mov #y, r0\ny = x + 2\n")])          # warm-up (creates try_compute's instance attribute)
     fp0 = fingerprint()
+    ps0 = proc_state()
+    proc_changes = []
     log = []
     for item in hist:
         it = dict(item)
@@ -445,6 +481,13 @@ def run_history(job):
         entry = {"kind": item["kind"], "outcome": oc, "state": st, "leftover": leftover_now()}
         if isinstance(r, dict) and r.get("crash"):
             entry["crash"] = {"exc": r["crash"].get("exc"), "frame": r["crash"].get("frame")}
+        ps = proc_state()
+        diff = {k: [ps0[k], ps[k]] for k in ps0 if ps0[k] != ps[k]}
+        if diff:
+            # interpreter-level state differs from what it was before the history: left behind by this (or an earlier) assembly
+            entry["process_state_changed"] = diff
+            if not proc_changes:
+                proc_changes.append({"item": item["kind"], "index": len(log), "changed": diff})
         # the REAL watchdog (SIGALRM) cut this assembly, on purpose or because the machine is loaded: an injected Hang has no pdpy11 frame
         # (or the run lasted as long as the watchdog allows: at a deep recursion the signal handler itself may die with RecursionError,
         #  which then looks like an ordinary crash but was raised asynchronously)
@@ -462,7 +505,7 @@ def run_history(job):
         res = {"outcome": "escaped:" + type(ex).__name__}
     fp1 = fingerprint()
     changed = sorted(k for k in set(fp0) | set(fp1) if fp0.get(k) != fp1.get(k))
-    return {"probe_result": res, "log": log, "state_after_probe": state_now(), "fingerprint_changed": changed}
+    return {"probe_result": res, "log": log, "state_after_probe": state_now(), "fingerprint_changed": changed, "process_state_changed": proc_changes}
 
 
 FRESH_SNIPPET = ("import sys, json; sys.path.insert(0, %r); import impl; from props import c18; "
@@ -541,11 +584,27 @@ def product_chain_variant(rng):
     return "valid", product_chain(rng, extra="y1 = x1 + x2\n.word y1")
 
 
-PROBE_KINDS = ["product-chain", "equal-values", "valid", "faulty", "two-files", "include+forward", "shared-names", "equal-values"]
+HUGE = ["emt 1 _ 40000", ".rad50 <1 _ 40000>", "hl{u}: br (1 _ 40000)", ".word 1 _ 40000", "hv{u} = 1 _ 40000\n.byte hv{u}\n.even", ".blkb 1 _ 40000",
+        "mov #<1 _ 20000> * <1 _ 20000>, r0", '.ascii <1 _ 40000>\n.even', "trap -<1 _ 30000>"]
+
+
+def huge_int_program(rng):
+    """Diagnostics that must print an integer of thousands of digits: sensitive to the interpreter's int/str limit, which an earlier
+    assembly might have switched (every such statement is an error on its own; the point is HOW the run ends)."""
+    text, _ = gen_program(rng, "g")
+    lines = text.rstrip("\n").split("\n")
+    for j, h in enumerate(rng.sample(HUGE, rng.randint(1, 2))):
+        lines.insert(rng.choice([0, len(lines)]), h.replace("{u}", str(j)))
+    return "\n".join(lines) + "\n"
+
+
+PROBE_KINDS = ["huge-int", "product-chain", "equal-values", "valid", "faulty", "two-files", "include+forward", "shared-names", "equal-values"]
 
 
 def gen_probe(rng, i):
-    kind = PROBE_KINDS[i] if i < len(PROBE_KINDS) else rng.choice(PROBE_KINDS + ["valid", "faulty", "product-chain"])
+    kind = PROBE_KINDS[i] if i < len(PROBE_KINDS) else rng.choice(PROBE_KINDS + ["valid", "faulty", "product-chain", "huge-int"])
+    if kind == "huge-int":
+        return {"files": [["probe.mac", huge_int_program(rng)]], "what": "huge-int"}
     if kind == "product-chain":
         v, text = product_chain_variant(rng)
         return {"files": [["probe.mac", text]], "what": "product-chain:" + v}
@@ -578,7 +637,9 @@ def gen_history(rng, maxlen):
     for j in range(n):
         r = rng.random()
         tag = "" if rng.random() < 0.5 else f"h{j}_"        # untagged names (l0.., k0..) are shared with other items and with some probes
-        if rng.random() < 0.06:
+        if rng.random() < 0.05:
+            hist.append({"kind": "invalid:huge-int", "files": [["h.mac", huge_int_program(rng)]]})
+        elif rng.random() < 0.06:
             # a ring through a product chain cut short by an injected crash, then the ring again: the second one must see an empty cycle memo
             ring = product_chain(rng, n=rng.randint(4, 30), x0="x2 + 1")
             hist.append({"kind": "ring-injected-crash", "files": [["h.mac", ring]], "inject": {"kind": rng.choice(["crash", "hang"]), "at": None, "frac": rng.random()}})
@@ -715,6 +776,9 @@ def history_part(rep, rng, nprobes, nhist_per_probe, maxlen, seeds):
                         {"history": small, "probe": job["probe"], "original_history_length": len(job["history"])},
                         expected=want, observed=res["probe_result"], state_log=[e for e in res["log"] if e["state"] != ZERO][:3],
                         replay="props.c18.run_history({'history':..., 'probe':...}) vs props.c18.fresh(probe)")
+        if res.get("process_state_changed"):
+            rep.disagree("interpreter / process level state (int_max_str_digits, recursion limit, warnings filters, locale, cwd, environ, streams, hooks ...) "
+                         "is not what it was before the history: an assembly left it changed", {"first_change": res["process_state_changed"][0], "history_kinds": kinds})
         if res["fingerprint_changed"]:
             rep.disagree("a module-level object of the package changed during the history (runtime complement of the usage scan)",
                          {"objects": res["fingerprint_changed"][:10], "history_kinds": kinds})
